@@ -15,6 +15,7 @@ import (
 	"os"
 	"runtime"
 	"strconv"
+	"strings"
 	"sync"
 	"time"
 
@@ -115,11 +116,11 @@ var expectPoints = map[string]map[string]string{
 }
 
 type replayStats struct {
-	Behaviours   int `json:"behaviours"`
-	Steps        int `json:"steps"`
-	Drift        int `json:"drift"`
-	PredMismatch int `json:"pred_mismatch"`
-	Watchdog     int `json:"watchdog"`
+	Behaviours   int   `json:"behaviours"`
+	Steps        int   `json:"steps"`
+	Drift        int   `json:"drift"`
+	PredMismatch int   `json:"pred_mismatch"`
+	Watchdog     int   `json:"watchdog"`
 	Events       int64 `json:"events"`
 }
 
@@ -284,6 +285,11 @@ func stress(kind string, capacity, nprod, nmsgs, histories int, seed int64, h hi
 	for i := 0; i < histories; i++ {
 		h.w.Raw(map[string]any{"ev": "New"})
 		mkind := kind
+		fillFirst := false
+		if strings.HasSuffix(kind, "_fill") { // the consumer starts only after every producer has finished
+			mkind = strings.TrimSuffix(kind, "_fill")
+			fillFirst = true
+		}
 		prefill := 0
 		if kind == "segroll" { // segmented mailbox driven across a 256-slot segment boundary
 			mkind = "seg"
@@ -344,6 +350,9 @@ func stress(kind string, capacity, nprod, nmsgs, histories int, seed int64, h hi
 			}()
 		}
 		go func() { wg.Wait(); close(prodDone) }()
+		if fillFirst {
+			<-prodDone
+		}
 		// single consumer
 		got := 0
 		cy := rng.Intn(5)
@@ -423,7 +432,7 @@ func segRace(h hist, rounds int) (reproduced, unreproduced int) {
 		}
 		s.Go("a", func() { s.Yield("call", 0, 0); enq("a", 1) })
 		s.Go("b", func() { s.Yield("call", 0, 0); enq("b", 2) })
-		s.Step("a") // a: tail loaded (S1), parked before writeIdx.Add
+		s.Step("a")                // a: tail loaded (S1), parked before writeIdx.Add
 		for i := 0; i < 257; i++ { // fill S1, roll over to S2
 			enq("m", 1000+i)
 		}
@@ -495,7 +504,7 @@ func segRace2(h hist, rounds int) (lost, ok int) {
 			enq("m", 1000+i)
 		}
 		s.Go("a", func() { enq("a", 1) }) // a: links a new segment, parks before swinging m.tail
-		for i := 0; i < 257; i++ {         // drain and retire the first segment
+		for i := 0; i < 257; i++ {        // drain and retire the first segment
 			deq()
 		}
 		enq("m", 2) // still sees the retired segment as tail
